@@ -3670,13 +3670,18 @@ class DecVar(Vars):
 
     def affadapt(self, rvars):
 
-        self.fixed = False
-        if self.shape == ():
-            self.shape = (1, )
+        fixed, shape = self.fixed, self.shape
+        try:
+            self.fixed = False
+            if shape == ():
+                self.shape = (1, )
             self[:].affadapt(rvars)
-            self.shape = ()
-        else:
-            self[:].affadapt(rvars)
+        except Exception:
+            # a refused declaration leaves the decision as it was
+            self.fixed = fixed
+            raise
+        finally:
+            self.shape = shape
 
     def __le__(self, other):
 
